@@ -399,6 +399,32 @@ def r6_lookup(ctx, prog):
                 r.inst("parse_key_path", "%d spellings: `ns:a.b.c` -> namespace ns, path [a, b, c] in order; segments trimmed; an empty or invalid segment rejects the reference" % len(want))
         except _absint.Unknown as u:
             r.viol("R6:parse_key_path#undecided", "cannot be interpreted on the current code (%s): not decided on this tree (fail closed)" % str(u)[:200], file=PV, line=fn.line)
+    # ... and a reference whose path is rejected is an *error*, in every build - not "no reference here" (which leaves `$t(1)` and every
+    # later reference of the value in the text): find_foreign_key evaluated on `$t(1) and $t(x)`, `$t(my key)`, `$t(a..b)`
+    ffk = ctx.ast.fn(PV, "find_foreign_key", impl_self="ParsedValue")
+    if ffk is None:
+        r.missing("ParsedValue::find_foreign_key")
+    else:
+        from rules.absint import AEval as _AE2, C as _C2, CF as _CF2, A as _A2
+        _S2 = lambda x: ("str", x)  # noqa: E731
+        bad_ = None
+        try:
+            for text_ in ("cost $t(1) and $t(x)", "$t(my key)", "$t(a..b)", "$t(ns:)"):
+                ev = _AE2(funcs=_absint.file_funcs(ctx.ast, PV, impl_self="ParsedValue"))
+                ev.macros = _absint.file_macros(ctx.ast, PV)
+                ev.path_builtins = {"Key::new": lambda a: _C2("Some", _CF2("Key", name=_S2(a[0][1].strip()))) if a[0][0] == "str" and re.match(r"^[A-Za-z_][A-Za-z0-9_]*$", a[0][1].strip()) else _C2("None")}
+                got = ev.run_fn(ffk, [_S2(text_), _A2("key_path"), _A2("locale"), _A2("fkp")])
+                if isinstance(got, str):
+                    raise _absint.Unknown(got)
+                is_err = got[0] == "ctor" and got[1] == "Some" and got[2] and got[2][0][0] == "ctor" and got[2][0][1] == "Err"
+                if not is_err and bad_ is None:
+                    bad_ = "`%s`: find_foreign_key answers %s - the reference is neither resolved nor rejected, it stays in the text" % (text_, _absint.fmt(got)[:120])
+            if bad_:
+                r.viol("R6:find_foreign_key#invalid-path", bad_, file=PV, line=ffk.line)
+            else:
+                r.inst("find_foreign_key#invalid-path", "4 references with a path that is not made of keys: an error each (with Key::new validating identifiers, as in the macro build)")
+        except _absint.Unknown as u:
+            r.viol("R6:find_foreign_key#undecided", "cannot be interpreted on the current code (%s): not decided on this tree (fail closed)" % str(u)[:200], file=PV, line=ffk.line)
     for v in ("MissingForeignKey", "InvalidForeignKey", "RecursiveForeignKey", "InvalidForeignKeyArgs", "InvalidCountArg", "InvalidCountArgType", "CountArgOutsideRange"):
         sites = sorted({n for n, bb in prog.bodies.items() if bb.crate == "leptos_i18n_parser" and "fmt::" not in n and any(True for _ in bb.aggregates("error::Error", v))})
         if sites:
